@@ -103,7 +103,10 @@ def outputs_of(w, net, account, tag=""):
         data.pop("BIP85", None)           # BIP85 defines its WIF/XPRV children as mainnet-encoded (owned by C12)
         add(data, "generate", 3 * (3 + 2 * 3))
     coin = 1 if testnet else 0
-    for path in ("m/44'/%d'/%d'/0/0" % (coin, account), "m/84'/%d'/0'" % coin, "m/49'/%d'/1'/1/5" % coin, "m/0/1", "m/7'", "m"):
+    other = 1 - coin
+    # also paths that carry the OTHER network's coin type: the artefacts must still be tagged with the wallet's own network
+    for path in ("m/44'/%d'/%d'/0/0" % (coin, account), "m/84'/%d'/0'" % coin, "m/49'/%d'/1'/1/5" % coin, "m/0/1", "m/7'", "m",
+                 "m/44'/%d'/0'" % other, "m/84'/%d'/2'/1/9" % other, "m/0'/%d'" % other, "m/49'/%d'/%d'" % (other, account)):
         st, node = attempt(w.by_path, path)
         if st != "ok":
             viols.append(V(P + ":by_path:raised", "by_path(%r) raised %s" % (path, node)))
